@@ -117,6 +117,40 @@ pub fn is_armed_site(s: u32) -> bool {
     (200..=235).contains(&s) && (s - 200) % 3 == 1
 }
 
+// ---- run-queue owner monitor: the producer side of a worker's spmc queue (`Local::push_back`, `Local::pop`) belongs to
+// one OS thread for the life of the process (the scheduler reaches it through `&mut *local_queues[id].get()`): a push
+// or an owner pop from a second thread is two unsynchronised writers of the tail.
+static OWNER_Q: [AtomicUsize; 64] = [const { AtomicUsize::new(0) }; 64];
+static OWNER_T: [AtomicUsize; 64] = [const { AtomicUsize::new(0) }; 64];
+pub static OWNER_CHECKS: AtomicUsize = AtomicUsize::new(0);
+pub static OWNER_VIOLATIONS: AtomicUsize = AtomicUsize::new(0);
+pub static OWNER_WITNESS: Mutex<Option<String>> = Mutex::new(None);
+fn owner_check(q: usize, t: usize, what: &str) {
+    if q == 0 {
+        return;
+    }
+    OWNER_CHECKS.fetch_add(1, Relaxed);
+    for i in 0..64 {
+        let cur = OWNER_Q[i].load(Relaxed);
+        if cur == q {
+            // the slot's thread is published right after the pointer; a reader that gets in between sees 0
+            let o = OWNER_T[i].load(Relaxed);
+            if o != 0 && o != t + 1 {
+                OWNER_VIOLATIONS.fetch_add(1, SeqCst);
+                let mut w = OWNER_WITNESS.lock().unwrap_or_else(|e| e.into_inner());
+                if w.is_none() {
+                    *w = Some(format!("{} on run queue {:#x} by OS thread #{}, the queue's owner side has been used by OS thread #{} so far", what, q, t, o - 1));
+                }
+            }
+            return;
+        }
+        if cur == 0 && OWNER_Q[i].compare_exchange(0, q, SeqCst, SeqCst).is_ok() {
+            OWNER_T[i].store(t + 1, SeqCst);
+            return;
+        }
+    }
+}
+
 /// not in the site table of older may trees: the monitor is simply never fed there
 const IO_TIMER_UNLINK: u32 = 250;
 
@@ -142,6 +176,11 @@ fn hook(s: u32, obj: usize) {
     }
     if s == site::RUN_CO_ENTER || s == site::RUN_CO_EXIT {
         residency(s == site::RUN_CO_ENTER, obj, t);
+    }
+    if s == site::SPMC_PUSH_WRITTEN {
+        owner_check(obj, t, "push");
+    } else if s == site::SPMC_LPOP_CLAIMED {
+        owner_check(obj, t, "owner pop");
     }
     if s == site::EP_BEFORE_TIMERS && obj < 64 {
         SELECTOR_THREAD[obj].store(t + 1, Relaxed);
